@@ -32,7 +32,10 @@ func runC10(c *core.Ctx) {
 	c.Rule("R7", "per-instance slices are fresh allocations or appends", 2)
 	c.Rule("R8", "per-key counters initialised from the replication set that is iterated", 3)
 	c.Rule("R9", "DoBatch is a pure delegation to DoBatchWithOptions (no second batching path)", 1)
+	c.Rule("R10", "per-key decision table of batchTracker.record (immediate error on tolerance exceeded, error at the last replica, success at quorum)", 1)
+	c.Rule("R11", "recordError stores every error and counts it in exactly one family", 1)
 	pkg := c.Prog.Pkg("ring")
+	defer c10Decision(c)
 	fn := an.FindFunc(pkg, "DoBatchWithOptions")
 	rec := an.FindFunc(pkg, "batchTracker.record")
 	if fn == nil || rec == nil {
@@ -453,4 +456,162 @@ func commRecv(s ast.Stmt) ast.Expr {
 		}
 	}
 	return nil
+}
+
+// c10Decision (R10/R11): the per-key decision in batchTracker.record and itemTracker.recordError, as decision tables.
+func c10Decision(c *core.Ctx) {
+	pkg := c.Prog.Pkg("ring")
+	rec := an.FindFunc(pkg, "batchTracker.record")
+	re := an.FindFunc(pkg, "itemTracker.recordError")
+	if rec == nil || re == nil {
+		c.Miss("R10", "func=record/recordError", "not found")
+		return
+	}
+	// ---- recordError: the error is stored, and counted in exactly one family, on every path
+	{
+		g := re.Graph()
+		var store an.Loc
+		var clientInc, serverInc []an.Loc
+		for _, call := range re.Calls(false) {
+			s, ok := call.Expr.Fun.(*ast.SelectorExpr)
+			if !ok {
+				continue
+			}
+			switch {
+			case s.Sel.Name == "Store" && re.Canon(s.X) == "recv.err" && re.Canon(call.Expr.Args[0]) == "p0":
+				store = g.Locate(call.Expr)
+			case s.Sel.Name == "Inc" && re.Canon(s.X) == "recv.failedClient":
+				clientInc = append(clientInc, g.Locate(call.Expr))
+			case s.Sel.Name == "Inc" && re.Canon(s.X) == "recv.failedServer":
+				serverInc = append(serverInc, g.Locate(call.Expr))
+			}
+		}
+		if !store.Valid() || len(clientInc) != 1 || len(serverInc) != 1 {
+			c.Viol("R11", "func=recordError:shape", re.Pos(), "recordError must store the error and have exactly one increment per error family")
+		} else {
+			t := an.Table{G: g, From: g.EntryLoc(), FreeUnknown: true, Atoms: []an.Atom{{Name: "client", Values: []string{"T", "F"}}},
+				Binder:  &an.Binder{Fn: re, Bool: map[string]string{"p1(p0)": "client"}},
+				Targets: []an.Loc{store, clientInc[0], serverInc[0]}, Names: []string{"err.Store", "failedClient.Inc", "failedServer.Inc"},
+				Want: func(r an.Row, i int) an.Tri {
+					switch i {
+					case 0:
+						return an.T
+					case 1:
+						return an.FromBool(r["client"] == "T")
+					}
+					return an.FromBool(r["client"] == "F")
+				}}
+			res := t.Run()
+			// the value returned is the incremented family counter
+			okRet := true
+			for _, b := range g.Blocks {
+				if r := an.ReturnOf(b); r != nil {
+					rc := re.Canon(r.Results[0])
+					if rc != "recv.failedClient.Inc()" && rc != "recv.failedServer.Inc()" {
+						okRet = false
+					}
+				}
+			}
+			c.Check(res.OK() && okRet, "R11", "func=recordError", re.Pos(), "every replica error is stored and counted in exactly one family (client ⇔ isClientError(err)), under no other condition, and the family's new count is returned: "+res.Summary(), res.Rows)
+		}
+	}
+	// ---- record
+	g := rec.Graph()
+	loops := []*ast.RangeStmt{}
+	rec.InspectShallow(func(n ast.Node) bool {
+		if rs, ok := n.(*ast.RangeStmt); ok {
+			loops = append(loops, rs)
+		}
+		return true
+	})
+	if len(loops) != 1 {
+		c.Undec("R10", "func=record:loop", rec.Pos(), "loop over the item trackers not found")
+		return
+	}
+	header, body, _ := g.LoopBlocks(loops[0])
+	var errSends, doneSends, pendDec []an.Loc
+	rec.InspectShallow(func(n ast.Node) bool {
+		switch x := n.(type) {
+		case *ast.SendStmt:
+			switch rec.Canon(x.Chan) {
+			case "recv.err":
+				errSends = append(errSends, g.Locate(x))
+			case "recv.done":
+				doneSends = append(doneSends, g.Locate(x))
+			}
+		case *ast.CallExpr:
+			if s, ok := x.Fun.(*ast.SelectorExpr); ok && s.Sel.Name == "Dec" && rec.Canon(s.X) == "recv.rpcsPending" {
+				pendDec = append(pendDec, g.Locate(x))
+			}
+		}
+		return true
+	})
+	it := "each(p0)"
+	roles := an.Roles{{From: it, To: "it"}}
+	atoms := []an.Atom{
+		{Name: "errnil", Values: []string{"T", "F"}},
+		{Name: "fam", Values: []string{"lt", "eq", "gt"}},  // family error count vs maxFailures
+		{Name: "succ", Values: []string{"lt", "eq", "gt"}}, // successes vs minSuccess
+		{Name: "last", Values: []string{"T", "F"}},         // remaining.Dec() == 0
+		{Name: "firstFail", Values: []string{"T", "F"}},
+		{Name: "allDone", Values: []string{"T", "F"}},
+	}
+	bd := &an.Binder{Fn: rec, Roles: roles,
+		Eq: map[string]string{"p1|nil": "errnil", "it.remaining.Dec()|0": "last", "recv.rpcsFailed.Inc()|1": "firstFail", "recv.rpcsPending.Dec()|0": "allDone"},
+		Cmp: map[string]string{"it.recordError(p1, p2)|it.maxFailures": "fam", "it.succeeded.Inc()|it.minSuccess": "succ"}, Unknown: map[string]bool{}}
+	targets := append(append(append([]an.Loc{}, errSends...), doneSends...), pendDec...)
+	nE, nD := len(errSends), len(doneSends)
+	var bad, undec []string
+	run := func(as []an.Atom) {
+		bad, undec = nil, nil
+		for _, row := range an.Rows(as) {
+			bd.Row = row
+			ex := g.Exec(an.Loc{B: body, I: 0}, targets, bd.Leaf, an.ExecOpts{Header: header})
+			or := func(lo, hi int) an.Tri {
+				v := an.F
+				for i := lo; i < hi; i++ {
+					v = an.Or(v, ex.Tri(i))
+				}
+				return v
+			}
+			e, d, p := or(0, nE), or(nE, nE+nD), or(nE+nD, len(targets))
+			isErr := row["errnil"] == "F"
+			var wantE, wantP bool
+			if isErr {
+				wantE = (row["fam"] == "gt" || row["last"] == "T") && row["firstFail"] == "T"
+				wantP = false
+			} else {
+				wantP = row["succ"] == "eq"
+				wantE = row["succ"] == "lt" && row["last"] == "T" && row["firstFail"] == "T"
+			}
+			wantD := wantP && row["allDone"] == "T"
+			if e == an.U || d == an.U || p == an.U {
+				undec = append(undec, rowString(row))
+				continue
+			}
+			if (e == an.T) != wantE || (d == an.T) != wantD || (p == an.T) != wantP {
+				bad = append(bad, fmt.Sprintf("{%s} errSignal=%v(want %v) keyDone=%v(want %v) doneSignal=%v(want %v)", rowString(row), e, wantE, p, wantP, d, wantD))
+			}
+		}
+	}
+	run(atoms)
+	if len(bd.Unknown) > 0 && len(bd.Unknown) <= 3 {
+		for u := range bd.Unknown {
+			atoms = append(atoms, an.Atom{Name: "extra:" + u, Values: []string{"T", "F"}})
+			if bd.Bool == nil {
+				bd.Bool = map[string]string{}
+			}
+			bd.Bool[u] = "extra:" + u
+		}
+		bd.Unknown = map[string]bool{}
+		run(atoms)
+	}
+	switch {
+	case len(bad) > 0:
+		c.Viol("R10", "func=record:decision", rec.Pos(), "per-key decision differs from: on error — signal (first failure only) ⇔ family count > maxFailures ∨ last replica; on success — key done ⇔ successes == minSuccess, error ⇔ successes < minSuccess ∧ last replica; batch done ⇔ key done ∧ no key pending: "+strings.Join(head(bad, 3), "; "))
+	case len(undec) > 0:
+		c.Undec("R10", "func=record:decision", rec.Pos(), fmt.Sprintf("undecidable rows %v (unrecognised: %v)", head(undec, 3), keys(bd.Unknown)))
+	default:
+		c.Hold("R10", "func=record:decision", rec.Pos(), fmt.Sprintf("decision table over error/no error × family count vs tolerance × successes vs quorum × last replica × single-winner atoms matches the property on %d rows", len(an.Rows(atoms))), len(an.Rows(atoms)))
+	}
 }
